@@ -99,7 +99,11 @@ class Canonicalizer:
                 return numerator
             if numerator == denominator:
                 return One()
-            return numerator / denominator  # TODO
+            rv = numerator / denominator
+            # dividing a fraction flattens it, which can make numerator and denominator equal
+            if isinstance(rv, Fraction) and rv.numerator == rv.denominator:
+                return One()
+            return rv
         elif isinstance(expression, One | Zero):
             return expression
         else:
